@@ -11,5 +11,6 @@ CONSTANTS Principals = {"A"}
           GenPNames = {}
           FilterOnOwner = TRUE
           FixedF8 = TRUE
+          Person <- IdPerson
 INVARIANTS StrictResults
 CHECK_DEADLOCK FALSE
